@@ -1,7 +1,7 @@
 //! Per-property world/program generators. One run index under one VERIF_SEED is one case.
 
 use crate::arena::{Place, PLACES};
-use crate::pools::{ctor_tree, Pools};
+use crate::pools::{ctor_tree, ill_ctor, Pools};
 use crate::prng::{mix, Rng};
 use crate::program::*;
 use crate::sched::Policy;
@@ -557,8 +557,17 @@ fn gen_c13(rng: &mut Rng, tier: Tier, index: u64) -> Case {
     case
 }
 
-fn gen_c03(rng: &mut Rng, tier: Tier, miri: bool) -> Case {
-    let elem = if miri { pick_elem(rng, 6) } else { pick_elem(rng, 3) };
+fn gen_c03(rng: &mut Rng, tier: Tier, miri: bool, fixed: Option<(ElemKind, Vec<Spec>)>) -> Case {
+    let elem = match &fixed {
+        Some((e, _)) => *e,
+        None => {
+            if miri {
+                pick_elem(rng, 6)
+            } else {
+                pick_elem(rng, 3)
+            }
+        }
+    };
     let mut case = base_case("C03", elem, rng);
     let nmax = if miri {
         if tier.thorough {
@@ -573,9 +582,24 @@ fn gen_c03(rng: &mut Rng, tier: Tier, miri: bool) -> Case {
     } else {
         2048
     };
-    let ninst = if miri { 1 } else { 1 + rng.below(3) as usize };
-    for _ in 0..ninst {
-        let spec = if rng.chance(0.3) && !miri {
+    let ninst = match &fixed {
+        Some((_, v)) => v.len(),
+        None => {
+            if miri {
+                1
+            } else {
+                1 + rng.below(3) as usize
+            }
+        }
+    };
+    for i in 0..ninst {
+        let spec = if let Some((_, v)) = &fixed {
+            // Engine B: one representative per algorithm family of every planner (the same list C11/C15/C07 walk)
+            v[i].clone()
+        } else if rng.chance(0.1) {
+            // fault ctor.precondition: the caller violates a documented constructor precondition
+            ill_ctor(rng, pks_for(elem))
+        } else if rng.chance(0.3) && !miri {
             // row-length residues of the AVX column butterflies
             Spec::Planned(*rng.pick(&[PK::Avx, PK::Auto]), *rng.pick(&pools(nmax.min(1 << 16)).avxrem))
         } else if rng.chance(0.25) {
@@ -606,8 +630,25 @@ fn gen_c03(rng: &mut Rng, tier: Tier, miri: bool) -> Case {
             }
         }
     }
+    if fixed.is_some() {
+        // every family instance is called well-shaped (two entry points, k up to 3) and ill-shaped at least once
+        for i in 0..ninst {
+            let inst = InstRef::Shared(i as u16);
+            let e0 = rng.below(4) as usize;
+            for j in 0..2 {
+                case.threads[0].push(Op::Call { inst, entry: ENTRIES[(e0 + j * (1 + rng.below(3) as usize)) % 4], k: pick_k(rng, 3), input: InputSpec { seed: rng.next(), kind: InputKind::Dense }, scratch_extra: 0, scratch_fill: Fill::Zero, out_fill: Fill::Zero, place: pick_place(rng), dft_ref: false });
+            }
+            case.threads[0].push(Op::BadCall { inst, entry: *rng.pick(&ENTRIES), fault: pick_fault(rng), place: pick_place(rng), seed: rng.next() });
+        }
+    }
     for t in 0..nthreads {
-        let nops = if miri { 2 + rng.below(2) as usize } else { 2 + rng.below(5) as usize };
+        let nops = if fixed.is_some() {
+            0
+        } else if miri {
+            2 + rng.below(2) as usize
+        } else {
+            2 + rng.below(5) as usize
+        };
         for _ in 0..nops {
             let inst = InstRef::Shared(rng.below(ninst as u64) as u16);
             let op = if rng.chance(0.6) {
@@ -742,12 +783,22 @@ pub fn gen_case(prop: &str, tier: Tier, verif_seed: u64, index: u64, engine_miri
     let mut rng = Rng::new(run_seed(verif_seed, prop, index) ^ if engine_miri { 0xB } else { 0 });
     let mut case = if engine_miri {
         match prop {
-            "C03" => gen_c03(&mut rng, tier, true),
+            "C03" => {
+                // every other case walks the algorithm-family list (a different stretch per VERIF_SEED), the rest are random worlds
+                let fixed = if index % 2 == 0 {
+                    let chunks = miri_family_chunks();
+                    let pos = (index / 2).wrapping_add(verif_seed.wrapping_mul(53)) as usize % chunks.len();
+                    Some(chunks[pos].clone())
+                } else {
+                    None
+                };
+                gen_c03(&mut rng, tier, true, fixed)
+            }
             _ => gen_miri_shared(prop, &mut rng, tier, index, verif_seed),
         }
     } else {
         match prop {
-            "C03" => gen_c03(&mut rng, tier, false),
+            "C03" => gen_c03(&mut rng, tier, false, None),
             "C06" => gen_c06(&mut rng, tier),
             "C07" => gen_c07(&mut rng, tier),
             "C08" => gen_c08(&mut rng, tier),
